@@ -376,6 +376,12 @@ func (ts *TestScript) cmdSkip(neg bool, args []string) {
 	}
 	ts.cmdWait(false, nil)
 
+	// With ContinueOnError an earlier line may have failed: the run is then
+	// a failure, not a skip.
+	if ts.failed {
+		ts.t.FailNow()
+	}
+
 	if len(args) == 1 {
 		ts.t.Skip(args[0])
 	}
